@@ -6,6 +6,7 @@ import (
 	"fmt"
 	"github.com/ipni/go-libipni/announce"
 	"sort"
+	"strings"
 	"time"
 
 	"github.com/ipni/go-libipni/announce/gossiptopic"
@@ -25,7 +26,13 @@ func runC10P(r *simkit.Run, c Cfg) {
 	tp := r.Tape
 	pw := newPubsubWorld(r)
 	defer pw.mn.Close()
-	const topicName = "ipni-c10"
+	topicName := "ipni-c10"
+	if tp.Chance(1, 5, "longTopic") {
+		// the topic name is part of every gossip message's envelope: a long
+		// one leaves less room for the message
+		topicName += "/" + strings.Repeat("n", 3000+tp.Choose(7000, "longTopic.len"))
+		r.Probe("long-topic-name")
+	}
 	var sopts []p2psender.Option
 	var extra []byte
 	if tp.Chance(1, 3, "extra") {
@@ -149,12 +156,16 @@ func runC10P(r *simkit.Run, c Cfg) {
 				m.ExtraData = tp.Bytes(1+tp.Choose(40, "mextralen"), "mextra")
 			}
 			big := false
-			if ownTopic && len(extra) == 0 && tp.Chance(1, 8, "mbig") {
+			bigDen := 8
+			if len(topicName) > 100 {
+				bigDen = 2
+			}
+			if ownTopic && len(extra) == 0 && tp.Chance(1, bigDen, "mbig") {
 				// extra data the encoder allows (its cap is 2 MiB) that brings
 				// the message near or over what one gossip message may be
 				// (1 MiB, envelope included): the sender says no, or the
 				// message arrives
-				n := (1 << 20) - []int{16384, 8192, 4096, 2048, 1024, 512, 200, 0, -4096}[tp.Choose(9, "mbiglen")]
+				n := (1 << 20) - []int{16384, 8192, 4096, 2048, 1024, 512, 200, 0, -4096, 6000, 5000, 4200}[tp.Choose(12, "mbiglen")]
 				m.ExtraData = bytes.Repeat([]byte{byte(len(sent) + 1)}, n)
 				big = true
 				r.Probe("gossip-message-near-size-limit")
